@@ -155,7 +155,7 @@ func hashableBasic(t types.Type) bool {
 }
 
 func C07(c *Ctx) {
-	c.R.Explanation = "Decides structural necessary conditions of 'processing never crashes the host' over core, match and the interpreters: (R1) a frozen table of values the API contract allows to be nil (no Control; absent bindings; the Execution returned with an error; null bindings; null nodes/branches while loading; absent action/guard source for native actions; absent branching) — every dereferencing use reachable through copies, phis, variables and static calls is dominated by a nil test of that value / field path or by the err==nil edge of the producing call; (R2) every comma-less type assertion is dominated by a successful test of the same value and type (infeasible blocks pruned); (R3) make sizes that are not constants or lengths are bounded below; (R4) the goja program runs only under a deferred recover and explicit panics reachable from Exec lie in functions that are only called from the script runtime; (R5) no error result is dropped in core/match/ecmascript except the enumerated infallible calls, and Walk turns a Step error into the error-node transition; (R6) values used as keys of interface-keyed maps are guarded by a test for a hashable type; (R7) recursive engine functions are never applied to values that come straight from the script runtime (which may be cyclic). Panics inside goja/std, stack exhaustion on deep JSON and index bounds are not decided."
+	c.R.Explanation = "Decides structural necessary conditions of 'processing never crashes the host' over core, match and the interpreters: (R1) a frozen table of values the API contract allows to be nil (no Control; absent bindings; the Execution returned with an error; null bindings; null nodes/branches while loading; absent action/guard source for native actions; absent branching) — every dereferencing use reachable through copies, phis, variables and static calls is dominated by a nil test of that value / field path or by the err==nil edge of the producing call; (R2) every comma-less type assertion is dominated by a successful test of the same value and type (infeasible blocks pruned); (R3) make sizes that are not constants or lengths are bounded below; (R4) the goja program runs only under a deferred recover and explicit panics reachable from Exec lie in functions that are only called from the script runtime; (R5) no error result is dropped in core/match/ecmascript except the enumerated infallible calls, and Walk turns a Step error into the error-node transition; (R6) values used as keys of interface-keyed maps are guarded by a test for a hashable type; (R7) recursive engine functions are never applied to values that come straight from the script runtime (which may be cyclic); (R8) the processing functions dereference nodes and branches of a compiled spec without a test, so Compile must establish that there are none: from the nil edge of every node value and branch element Compile visits, the store that marks the spec compiled is unreachable unless the null was first replaced by a fresh value in the spec itself, and Compile visits the branches of every node. Panics inside goja/std, stack exhaustion on deep JSON and index bounds are not decided."
 	c.R.Rule("C07-R1", "E2", "nil contract", 12)
 	c.R.Rule("C07-R2", "E2", "type assertions are checked", 3)
 	c.R.Rule("C07-R3", "E2", "allocation sizes bounded below", 1)
@@ -163,6 +163,7 @@ func C07(c *Ctx) {
 	c.R.Rule("C07-R5", "E6", "errors are not dropped; Walk routes Step errors to the error node", 10)
 	c.R.Rule("C07-R6", "E2", "interface-keyed maps get hashable keys only", 2)
 	c.R.Rule("C07-R7", "E1", "recursive functions see only canonicalised (acyclic) values", 1)
+	c.R.Rule("C07-R8", "E3", "Compile establishes what processing assumes: a compiled spec has no null node and no null branch", 2)
 
 	coreFns := c.P.FuncsIn("core")
 	fns := c.processingClosure()
@@ -274,6 +275,7 @@ func C07(c *Ctx) {
 	c.reportNil("C07-R1", res)
 	c.R.Extra["nullable_sources"] = len(srcs)
 
+	c07Invariant(c, compile)
 	// ------------------------------------------------------------------ R2
 	n2 := map[string]int{}
 	for _, f := range fns {
@@ -885,4 +887,244 @@ func c07Recursion(c *Ctx) {
 		c.R.Check(len(bad) == 0, "C07-R7", fname(f)+": recursion over canonicalised values only", c.P.Pos(f.Pos()), "no parameter can hold an un-canonicalised script value", strings.Join(bad, "; ")+" (a cyclic script value would recurse without bound)")
 	}
 	c.R.Extra["recursive_functions_in_exec_closure"] = nrec
+}
+
+// c07Invariant: C07-R8.
+func c07Invariant(c *Ctx, compile *ssa.Function) {
+	// the store that marks the spec compiled
+	var mark *ssa.Store
+	ssau.Instrs(compile, func(in ssa.Instruction) {
+		if st, ok := in.(*ssa.Store); ok && ssau.IsField(st.Addr, prog.Abs("core"), "Spec", "compiled") {
+			if cst, isC := st.Val.(*ssa.Const); isC && cst.Value != nil && cst.Value.String() == "true" {
+				mark = st
+			}
+		}
+	})
+	if mark == nil {
+		c.R.Break("C07-R8: Compile does not mark the spec compiled")
+		return
+	}
+	// nilEdge: the successor taken when v is nil, for every test of v
+	nilEdges := func(v ssa.Value) []*ssa.BasicBlock {
+		var out []*ssa.BasicBlock
+		for _, r := range ssau.Referrers(v) {
+			bo, ok := r.(*ssa.BinOp)
+			if !ok || !(ssau.IsNilConst(bo.X) || ssau.IsNilConst(bo.Y)) || (bo.Op != token.EQL && bo.Op != token.NEQ) {
+				continue
+			}
+			for _, r2 := range ssau.Referrers(bo) {
+				if iff, isIf := r2.(*ssa.If); isIf {
+					if bo.Op == token.EQL {
+						out = append(out, iff.Block().Succs[0])
+					} else {
+						out = append(out, iff.Block().Succs[1])
+					}
+				}
+			}
+		}
+		return out
+	}
+	loops := flow.Loops(compile)
+	nb, nn := 0, 0
+	parse := c.P.Func("core", "Spec", "ParsePatterns")
+	skip := map[*ssa.Function]bool{}
+	if parse != nil {
+		for _, f := range pkgClosure(parse) {
+			skip[f] = true // a loader of its own; it does not mark the spec compiled
+		}
+	}
+	// canReachMark: can control that is at block `from` of fn still arrive at the mark?
+	errNonNil := func(v ssa.Value) bool {
+		for _, d := range phiDefs(v, nil, map[ssa.Value]bool{}) {
+			if ssau.IsNilConst(d) {
+				return false
+			}
+		}
+		return true
+	}
+	canReachMark := func(fn *ssa.Function, from *ssa.BasicBlock) (bool, string) {
+		if fn == compile {
+			return from == mark.Block() || flow.Reachable(from, mark.Block(), nil), ""
+		}
+		// a helper called from Compile: every return reachable from here must carry an error ...
+		blocks := flow.ReachableFrom(from, nil)
+		blocks[from] = true
+		for b := range blocks {
+			ret, ok := b.Instrs[len(b.Instrs)-1].(*ssa.Return)
+			if !ok {
+				continue
+			}
+			if len(ret.Results) == 0 || !errNonNil(ret.Results[len(ret.Results)-1]) {
+				return true, "helper " + fn.Name() + " can return without an error (" + c.pos(ret) + ")"
+			}
+		}
+		// ... and Compile must not go on to the mark with that error
+		sites := callSitesOf(fn, []*ssa.Function{compile})
+		if len(sites) == 0 {
+			return true, "helper " + fn.Name() + " is not called directly by Compile (cannot establish)"
+		}
+		for _, site := range sites {
+			cl, isCall := site.(*ssa.Call)
+			if !isCall {
+				return true, "helper " + fn.Name() + " is started, not called"
+			}
+			var errv ssa.Value
+			if tup, isTup := cl.Type().(*types.Tuple); isTup {
+				errv = callResults(cl)[tup.Len()-1]
+			} else {
+				errv = cl
+			}
+			if errv == nil {
+				return true, "Compile drops the error of " + fn.Name()
+			}
+			okEdge := false
+			for _, e := range nonNilEdges(errv) {
+				okEdge = true
+				if e == mark.Block() || flow.Reachable(e, mark.Block(), nil) {
+					return true, "Compile goes on after an error from " + fn.Name()
+				}
+			}
+			if !okEdge {
+				return true, "Compile does not test the error of " + fn.Name()
+			}
+			// on the error-free edge nothing is claimed
+		}
+		return false, ""
+	}
+	underNodesLoop := func(fn *ssa.Function, b *ssa.BasicBlock) bool {
+		check := func(f *ssa.Function, blk *ssa.BasicBlock) bool {
+			for _, l := range enclosingLoops(flow.Loops(f), blk) {
+				if op := loopOperand(l); op != nil {
+					if _, is := isFieldLoad(op, "core", "Spec", "Nodes"); is {
+						return true
+					}
+				}
+			}
+			return false
+		}
+		if check(fn, b) {
+			return true
+		}
+		if fn != compile {
+			for _, site := range callSitesOf(fn, []*ssa.Function{compile}) {
+				if !check(compile, site.Block()) {
+					return false
+				}
+			}
+			return len(callSitesOf(fn, []*ssa.Function{compile})) > 0
+		}
+		return false
+	}
+	_ = loops
+	var visitFns []*ssa.Function
+	for _, f := range pkgClosure(compile) {
+		if !skip[f] && prog.PkgOf(f) == "core" {
+			visitFns = append(visitFns, f)
+		}
+	}
+	sort.Slice(visitFns, func(i, j int) bool { return fname(visitFns[i]) < fname(visitFns[j]) })
+	for _, vf := range visitFns {
+		vf := vf
+		ssau.Instrs(vf, func(in ssa.Instruction) {
+			switch x := in.(type) {
+			case *ssa.UnOp:
+				ia, ok := x.X.(*ssa.IndexAddr)
+				if !ok || x.Op != token.MUL {
+					return
+				}
+				if _, is := isFieldLoad(ia.X, "core", "Branches", "Branches"); !is {
+					return
+				}
+				nb++
+				key := fmt.Sprintf("Compile: branch element #%d is never null in a compiled spec", nb)
+				edges := nilEdges(x)
+				ok2, why := len(edges) > 0, "the branch element is not tested for nil"
+				for _, e := range edges {
+					if can, how := canReachMark(vf, e); can {
+						ok2, why = false, "after finding a null branch Compile can still mark the spec compiled; Branches.consider then calls a method on the nil branch and the host panics"
+						if how != "" {
+							why += " (" + how + ")"
+						}
+					}
+				}
+				if ok2 && !underNodesLoop(vf, x.Block()) {
+					ok2, why = false, "the branches are not visited for every node of the spec"
+				}
+				c.R.Check(ok2, "C07-R8", key, c.pos(x), "the nil edge cannot reach the 'compiled' mark; visited for every node", why)
+			case *ssa.Extract:
+				nx, ok := x.Tuple.(*ssa.Next)
+				if !ok || x.Index != 2 {
+					return
+				}
+				rg, ok := nx.Iter.(*ssa.Range)
+				if !ok {
+					return
+				}
+				if _, is := isFieldLoad(rg.X, "core", "Spec", "Nodes"); !is {
+					return
+				}
+				if vf != compile {
+					return
+				}
+				nn++
+				key := fmt.Sprintf("Compile: node value #%d is never null in a compiled spec", nn)
+				edges := nilEdges(x)
+				ok2, why := len(edges) > 0, "the node value is not tested for nil"
+				for _, e := range edges {
+					if !(e == mark.Block() || flow.Reachable(e, mark.Block(), nil)) {
+						continue
+					}
+					// replaced in the spec by a fresh node on that edge
+					replaced := false
+					for _, b := range compile.Blocks {
+						if b != e && !e.Dominates(b) {
+							continue
+						}
+						for _, i2 := range b.Instrs {
+							mu, isMU := i2.(*ssa.MapUpdate)
+							if !isMU {
+								continue
+							}
+							if _, is := isFieldLoad(mu.Map, "core", "Spec", "Nodes"); !is {
+								continue
+							}
+							k, isK := mu.Key.(*ssa.Extract)
+							if isK && k.Tuple == x.Tuple && k.Index == 1 && localFresh(mu.Value) {
+								replaced = true
+							}
+						}
+					}
+					// the replacement must come before anything else on that edge: the edge block itself holds it
+					if !replaced {
+						ok2, why = false, "after finding a null node Compile can mark the spec compiled without having replaced the null in the spec"
+					}
+				}
+				c.R.Check(ok2, "C07-R8", key, c.pos(x), "a null node is replaced by a fresh node in the spec (or compilation fails)", why)
+			}
+		})
+	}
+	if nb == 0 || nn == 0 {
+		c.R.Break("C07-R8: Compile does not visit node values (%d) and branch elements (%d)", nn, nb)
+	}
+}
+
+// nonNilEdges: successors taken when v is known to be non-nil, for every nil test of v.
+func nonNilEdges(v ssa.Value) []*ssa.BasicBlock {
+	var out []*ssa.BasicBlock
+	for _, r := range ssau.Referrers(v) {
+		bo, ok := r.(*ssa.BinOp)
+		if !ok || !(ssau.IsNilConst(bo.X) || ssau.IsNilConst(bo.Y)) || (bo.Op != token.EQL && bo.Op != token.NEQ) {
+			continue
+		}
+		for _, r2 := range ssau.Referrers(bo) {
+			if iff, isIf := r2.(*ssa.If); isIf {
+				if bo.Op == token.NEQ {
+					out = append(out, iff.Block().Succs[0])
+				} else {
+					out = append(out, iff.Block().Succs[1])
+				}
+			}
+		}
+	}
+	return out
 }
